@@ -57,7 +57,9 @@ GroupOfOut(T, o) == (CHOOSE y \in AllPieces(T) : \E f \in Range(Frags(T.out[o].r
 OutputOrder(T) ==
   \A a \in CuratedAsms(T) : LET sq == AsmSeq(T, a) IN
     /\ \A q \in 1..(Len(sq) - 1) : T.out[sq[q]].rank <= T.out[sq[q + 1]].rank
-    /\ \A q \in 1..Len(sq) : (IsMapped(T, sq[q]) /\ RoleOfOut(T, sq[q]) = "unloc") =>
+    \* ("an autosome's unlocs directly after it": rank 1 only - a named chromosome's unlocs need not follow it, SUPER_I_II sorts between
+    \*  SUPER_I and SUPER_I_unloc_1)
+    /\ \A q \in 1..Len(sq) : (IsMapped(T, sq[q]) /\ RoleOfOut(T, sq[q]) = "unloc" /\ T.out[sq[q]].rank = 1) =>
           (q > 1 /\ IsMapped(T, sq[q - 1]) /\ GroupOfOut(T, sq[q - 1]) = GroupOfOut(T, sq[q]) /\ RoleOfOut(T, sq[q - 1]) \in {"main", "unloc"})
     /\ \A q1, q2 \in 1..Len(sq) :
           (IsMapped(T, sq[q1]) /\ IsMapped(T, sq[q2]) /\ RoleOfOut(T, sq[q1]) = "main" /\ RoleOfOut(T, sq[q2]) = "main"
